@@ -86,8 +86,25 @@ def resolve(t, asg):
     return t
 
 
+def resolve_deep(t, asg):
+    """Resolve every ifexp anywhere in t whose condition term is decided by asg."""
+    if not asg:
+        return t
+
+    def f(x):
+        if x[0] == "ifexp" and x[1] in asg:
+            return x[2] if asg[x[1]] else x[3]
+        return None
+    return subst(t, f)
+
+
 def spine_cases(t):
-    """[(assignment, leaf)] for every reachable combination of spine conditions."""
+    """[(assignment, leaf)] for every reachable combination of spine conditions (nested occurrences of an
+    already decided condition inside the leaf are resolved consistently)."""
+    return [(a, resolve_deep(l, a)) for a, l in _spine_cases(t)]
+
+
+def _spine_cases(t):
     out = []
 
     def rec(t, asg):
@@ -153,3 +170,19 @@ def func_loc(ctx, dotted):
 def short(t, ev=None, n=300):
     s = ts(t, ev)
     return s if len(s) <= n else s[: n - 1] + "…"
+
+
+def all_cases(t, limit=5):
+    """[(assignment, resolved term)] over every ifexp condition occurring anywhere in t."""
+    import itertools
+    conds = []
+    for x in subterms(t):
+        if x[0] == "ifexp" and x[1] not in conds:
+            conds.append(x[1])
+    if len(conds) > limit:
+        raise AnalysisError("too many conditions")
+    out = []
+    for bits in itertools.product([True, False], repeat=len(conds)):
+        asg = dict(zip(conds, bits))
+        out.append((asg, resolve_deep(t, asg)))
+    return out
